@@ -142,7 +142,12 @@ def r2_one_disposition(ctx):
     yield Ob('x12context:X12ContextReader.iter_segments _add_segment receives the current segment, its node and the walker\'s loop lists', ok, ctx.floc(fn),
              '' if ok else 'arguments %s' % [norm(c) for c in adds])
     # walker result unpacked in the walker's order
-    walks = [s for s in ast.walk(fn) if isinstance(s, ast.Assign) and isinstance(s.value, ast.Call) and A.call_target(s.value)[1] == 'walk']
+    # (the call may be the last alternative of a conditional expression that answers fixed triples for ISA and GS)
+    def _is_walk_value(v):
+        if isinstance(v, ast.IfExp):
+            return _is_walk_value(v.orelse) or _is_walk_value(v.body)
+        return isinstance(v, ast.Call) and A.call_target(v)[1] == 'walk'
+    walks = [s for s in ast.walk(fn) if isinstance(s, ast.Assign) and _is_walk_value(s.value)]
     ok = False
     if len(walks) == 1 and isinstance(walks[0].targets[0], ast.Tuple) and len(walks[0].targets[0].elts) == 3:
         t0, t1, t2 = [path_of(t) for t in walks[0].targets[0].elts]
@@ -150,7 +155,7 @@ def r2_one_disposition(ctx):
         # pop/push parameters (whatever the locals are called)
         addf = ctx.func('x12context', 'X12ContextReader._add_segment')
         pnames = [a.arg for a in addf.args.args]
-        ok = t0 in ('seg_node', 'self.x12_map_node') and bool(adds) and all(path_of(c.args[3]) == t1 and path_of(c.args[4]) == t2 for c in adds) \
+        ok = t0 in ('seg_node', 'self.x12_map_node', 'found_node', 'node') and bool(adds) and all(path_of(c.args[3]) == t1 and path_of(c.args[4]) == t2 for c in adds) \
             and len(pnames) >= 6 and 'pop' in pnames[4] and 'push' in pnames[5]
     yield Ob('x12context:X12ContextReader.iter_segments unpacks (node, popped, pushed) from walk()', ok, ctx.floc(fn), '' if ok else 'unpacking changed')
 
@@ -234,7 +239,14 @@ def r4_resolution_and_attachment(ctx):
         raise AnalysisError('x12context: only %d self-calls found' % n)
     f = ctx.func('x12context', 'X12ContextReader._add_segment')
     txt = ast.unparse(f)
-    ok = 'new_node.parent = cur_loop_node' in txt and 'cur_loop_node.children.append(new_node)' in txt
+    import re as _re0
+    # (whatever the two locals are called: <new>.parent = <loop>  and  <loop>.children.append(<new>) with the same pair,
+    # <new> being the node built from the segment)
+    newv = {path_of(st.targets[0]) for st in ast.walk(f) if isinstance(st, ast.Assign) and isinstance(st.value, ast.Call)
+            and A.call_target(st.value)[1] == 'X12SegmentDataNode' and len(st.targets) == 1}
+    pairs_a = {(m_.group(1), m_.group(2)) for m_ in _re0.finditer(r'\b(\w+)\.parent = (\w+)\b', txt)}
+    pairs_b = {(m_.group(2), m_.group(1)) for m_ in _re0.finditer(r'\b(\w+)\.children\.append\((\w+)\)', txt)}
+    ok = any(a_ in pairs_b and a_[0] in newv for a_ in pairs_a)
     require_idiom(ok, 'c09.py:225')
     yield Ob('x12context:X12ContextReader._add_segment attaches the node to the loop it computed', ok, ctx.floc(f), '' if ok else 'attachment changed')
     loops = [s for s in ast.walk(f) if isinstance(s, ast.For)]
@@ -375,7 +387,16 @@ def r10_shared_position_counter(ctx):
         yield o
 
 
+def r11_shared_matching(ctx):
+    """a segment is placed under the map node it matches: the matcher decided in C02.R14 (shared) - a node that stops
+    matching its own segments leaves them on the previous node and the trees are cut in the wrong places"""
+    from . import c02
+    for o in c02.r14_is_match_semantics(ctx):
+        yield o
+
+
 RULES = [
+    Rule('C09.R11', 'shared with C02.R14: segment_if.is_match decided by constant propagation', r11_shared_matching, floor=1),
     Rule('C09.R1', 'the tree under construction is yielded on every path to the end of the generator', r1_flush, floor=1),
     Rule('C09.R2', 'each source segment is placed in the tree or yielded exactly once per iteration', r2_one_disposition, floor=3),
     Rule('C09.R3', 'every node created in iter_segments gets seg_count and cur_line_number from the right getters', r3_position_fields, floor=6),
